@@ -31,7 +31,16 @@ FILES = [
     "nemoguardrails/actions/llm/generation.py",
     "nemoguardrails/actions/v2_x/generation.py",
     "nemoguardrails/llm/taskmanager.py",
+    # phase 5: the code that assembles the reply AFTER the runtime returned (no template sink there today: a function appears in the
+    # generated IR - and in the pinned sink inventory - as soon as one is added)
+    "nemoguardrails/rails/llm/llmrails.py",
+    "nemoguardrails/colang/v1_0/runtime/runtime.py",
+    "nemoguardrails/colang/v2_x/runtime/runtime.py",
+    "nemoguardrails/actions/llm/utils.py",
+    "nemoguardrails/streaming.py",
 ]
+# calls whose VALUE is LLM text: the completion itself, and what the runtimes return for a turn (the new events carry the bot messages)
+LLM_CALLS = ("llm_call", "generate_events", "process_events", "_compute_next_steps", "compute_next_steps")
 SINKS = {"_render_string": ("template_str", 0), "from_string": ("source", 0), "Template": ("source", 0), "render_task_prompt": ("task", 0)}
 ROOT_ORIGINS = [
     ("self.config", "config"), ("self.bot_messages", "config"), ("self.user_messages", "config"), ("config", "config"),
@@ -92,7 +101,7 @@ class Fn:
                 return
             if isinstance(n, ast.Call):
                 fname = n.func.attr if isinstance(n.func, ast.Attribute) else (n.func.id if isinstance(n.func, ast.Name) else None)
-                if fname == "llm_call":
+                if fname in LLM_CALLS:
                     consts.append("llm")
                 if fname in SINKS and fname != "render_task_prompt":
                     consts.append("rendered")
@@ -328,7 +337,188 @@ def tables():
     return {"re_word_ranges": len(wr), "re_digit_ranges": len(dr), "python": sys.version.split()[0]}
 
 
+# ---------------------------------------------------------------------------------------------------------------------------
+# phase 5: texts that the code AFTER the generation actions interprets (control scripts, event type names, markers)
+
+CONTROL_FILES = [
+    "nemoguardrails/rails/llm/llmrails.py",
+    "nemoguardrails/rails/llm/utils.py",
+    "nemoguardrails/colang/v1_0/runtime/runtime.py",
+    "nemoguardrails/colang/v1_0/runtime/flows.py",
+    "nemoguardrails/colang/v2_x/runtime/runtime.py",
+    "nemoguardrails/colang/runtime.py",
+    "nemoguardrails/actions/llm/utils.py",
+    "nemoguardrails/actions/llm/generation.py",
+    "nemoguardrails/actions/v2_x/generation.py",
+    "nemoguardrails/logging/verbose.py",
+    "nemoguardrails/logging/processing_log.py",
+    "nemoguardrails/streaming.py",
+]
+# functions whose literals are compared with the text / type of the events of the CURRENT turn after the runtime returned (or while it
+# runs the turn): every literal found there is fed as the exact message text at every message position of every mode
+PRIORITY_FUNCS = {
+    ("nemoguardrails/rails/llm/llmrails.py", "generate_async"),
+    ("nemoguardrails/colang/v1_0/runtime/runtime.py", "generate_events"),
+    ("nemoguardrails/colang/v1_0/runtime/runtime.py", "_load_flow_config"),
+    ("nemoguardrails/colang/v1_0/runtime/runtime.py", "_process_start_flow"),
+    ("nemoguardrails/colang/v2_x/runtime/runtime.py", "process_events"),
+    ("nemoguardrails/logging/verbose.py", "emit"),
+    ("nemoguardrails/streaming.py", "_process"),
+    ("nemoguardrails/streaming.py", "push_chunk"),
+    ("nemoguardrails/actions/llm/generation.py", "generate_bot_message"),
+}
+_STR_TESTS = ("startswith", "endswith", "match", "search", "fullmatch", "split", "rsplit", "replace", "index", "find", "sub", "findall", "removeprefix", "removesuffix", "partition", "count", "strip", "lstrip", "rstrip")
+
+
+def _str_consts(node):
+    for k in ast.walk(node):
+        if isinstance(k, ast.Constant) and isinstance(k.value, str):
+            yield k.value
+
+
+def control_literals():
+    """String literals that the post-processing code compares with (or searches in / splits at) a text: operands of a comparison
+    (`==`, `!=`, `in`, `not in`) and arguments of the str / re test methods, in every function of CONTROL_FILES.
+    Returns {"all": [...], "priority": [...]} (sorted, non-empty literals of at most 60 characters)."""
+    allv, prio, asm = set(), set(), set()
+    import os
+
+    from .util import REPO
+
+    for rel in CONTROL_FILES:
+        if not os.path.exists(os.path.join(REPO, rel)):
+            continue
+        tree = parse(rel)
+        for fn in functions(tree):
+            found = set()
+            for n in ast.walk(fn):
+                if isinstance(n, ast.Compare):
+                    for c in [n.left] + list(n.comparators):
+                        found.update(_str_consts(c))
+                elif isinstance(n, ast.Call) and isinstance(n.func, ast.Attribute) and n.func.attr in _STR_TESTS:
+                    for a in n.args:
+                        found.update(_str_consts(a))
+                elif isinstance(n, ast.JoinedStr):
+                    # f-strings that build markup / markers around a text (verbose handler, streaming markers)
+                    found.update(v for v in _str_consts(n) if any(ch in v for ch in "[]<>{}()"))
+            found = {v for v in found if 0 < len(v) <= 60}
+            allv |= found
+            if (rel, fn.name) in PRIORITY_FUNCS:
+                prio |= found
+            if (rel, fn.name) == ("nemoguardrails/rails/llm/llmrails.py", "generate_async"):
+                asm |= found
+    if "(remove last message)" not in allv and not any("remove" in v for v in allv):
+        # not an error (the control script may legitimately disappear) - but say so in the evidence
+        pass
+    if len(allv) < 50:
+        raise TieBroken(f"only {len(allv)} compared string literals found in the post-processing modules (files moved?)")
+    return {"all": sorted(allv), "priority": sorted(prio), "generate_async": sorted(asm)}
+
+
+def _is_sub(node, name, key):
+    """`name["key"]`"""
+    return isinstance(node, ast.Subscript) and isinstance(node.value, ast.Name) and node.value.id == name and isinstance(node.slice, ast.Constant) and node.slice.value == key
+
+
+def _cmp_eq(test, name, key):
+    """`name["key"] == "<lit>"` -> lit"""
+    if isinstance(test, ast.Compare) and len(test.ops) == 1 and isinstance(test.ops[0], ast.Eq) and _is_sub(test.left, name, key) and isinstance(test.comparators[0], ast.Constant) and isinstance(test.comparators[0].value, str):
+        return test.comparators[0].value
+    return None
+
+
+def assembly():
+    """The response-assembly loops of `LLMRails.generate_async` (after the runtime returned, outside every try/except)
+    -> Generated/C17Assembly.lean (`spec : LlmAssemble.Spec`): the literals AND the shape of the statement that removes a message."""
+    rel = "nemoguardrails/rails/llm/llmrails.py"
+    tree = parse(rel)
+    ga = find_def(tree, "generate_async", "LLMRails")
+    loop_if = None
+    for node in ast.walk(ga):
+        if (isinstance(node, ast.If) and ast.unparse(node.test) == "self.config.colang_version == '1.0'" and node.body and isinstance(node.body[0], ast.For)
+                and ast.unparse(node.body[0].iter) == "new_events" and node.orelse and isinstance(node.orelse[0], ast.For)):
+            loop_if = node
+            break
+    if loop_if is None:
+        raise TieBroken("generate_async: the `for event in new_events` assembly loops (1.0 / 2.x) were not found")
+    f1, f2 = loop_if.body[0], loop_if.orelse[0]
+    ev = f1.target.id if isinstance(f1.target, ast.Name) else None
+    if ev is None or len(f1.body) != 1 or not isinstance(f1.body[0], ast.If):
+        raise TieBroken("generate_async 1.0 assembly loop: unexpected body shape")
+    top = f1.body[0]
+    utter = _cmp_eq(top.test, ev, "type")
+    if utter is None or len(top.body) != 1 or not isinstance(top.body[0], ast.If):
+        raise TieBroken("generate_async 1.0 assembly loop: expected `if event['type'] == <utterance type>: if event['script'] == <control script>: …`")
+    inner = top.body[0]
+    remove = _cmp_eq(inner.test, ev, "script")
+    if remove is None or len(inner.body) != 1 or len(inner.orelse) != 1 or ast.unparse(inner.orelse[0]) != f"responses.append({ev}['script'])":
+        raise TieBroken("generate_async 1.0 assembly loop: the control-script branch / append branch changed shape")
+    rm = ast.unparse(inner.body[0])
+    if rm in ("responses = responses[0:-1]", "responses = responses[:-1]"):
+        op = "sliceDropLast"
+    elif rm in ("responses.pop()", "responses.pop(-1)", "del responses[-1]"):
+        op = "pop"
+    else:
+        raise TieBroken(f"generate_async 1.0 assembly loop: the statement that removes the last message is `{rm}` (neither the slice nor pop/del)")
+    if len(top.orelse) != 1 or not isinstance(top.orelse[0], ast.If) or top.orelse[0].orelse:
+        raise TieBroken("generate_async 1.0 assembly loop: expected exactly `elif event['type'].endswith(<suffix>): exception = event`")
+    exc_if = top.orelse[0]
+    t = exc_if.test
+    if not (isinstance(t, ast.Call) and isinstance(t.func, ast.Attribute) and t.func.attr == "endswith" and _is_sub(t.func.value, ev, "type") and len(t.args) == 1
+            and isinstance(t.args[0], ast.Constant) and isinstance(t.args[0].value, str) and [ast.unparse(x) for x in exc_if.body] == [f"exception = {ev}"]):
+        raise TieBroken("generate_async 1.0 assembly loop: the exception branch changed shape")
+    exc_suffix = t.args[0].value
+    # 2.x loop
+    ev2 = f2.target.id if isinstance(f2.target, ast.Name) else None
+    src2 = ast.unparse(f2)
+    m = [n for n in ast.walk(f2) if isinstance(n, ast.Call) and ast.unparse(n.func) == "re.match"]
+    if ev2 is None or len(m) != 1 or not isinstance(m[0].args[0], ast.Constant) or ast.unparse(m[0].args[1]) != f"{ev2}['type']":
+        raise TieBroken("generate_async 2.x assembly loop: expected one `re.match(<pattern>, event['type'])`")
+    rx = m[0].args[0].value
+    if rx != "Start(.*Action)":
+        raise TieBroken(f"generate_async 2.x assembly loop: the action pattern is {rx!r}; Models/LlmAssemble.startActionName models 'Start(.*Action)'")
+    fin = [c for n in ast.walk(f2) if isinstance(n, ast.If) for c in [_cmp_eq(n.test, ev2, "type")] if c is not None]
+    if len(fin) != 1 or f"responses.append({ev2}['final_script'])" not in src2 or f"response_events.append({ev2})" not in src2 or f"'id': {ev2}['action_uid']" not in src2:
+        raise TieBroken("generate_async 2.x assembly loop: finished-utterance / tool-call / events branches changed shape")
+    excluded = sorted({c.comparators[0].value for n in ast.walk(f2) if isinstance(n, ast.DictComp) for c in ast.walk(n)
+                       if isinstance(c, ast.Compare) and isinstance(c.ops[0], ast.NotEq) and isinstance(c.comparators[0], ast.Constant)})
+    # the message
+    msg_if = [n for n in ast.walk(ga) if isinstance(n, ast.If) and ast.unparse(n.test) == "exception" and "new_message" in ast.unparse(n)]
+    if len(msg_if) != 1:
+        raise TieBroken("generate_async: `if exception: new_message = … else: new_message = …` not found")
+    want_exc = "new_message = {'role': 'exception', 'content': exception}"
+    els = ast.unparse(msg_if[0].orelse[0]) if msg_if[0].orelse else ""
+    mm = re.fullmatch(r"new_message = \{'role': 'assistant', 'content': ('(?:[^'\\]|\\.)*')\.join\(responses\)\}", els)
+    if ast.unparse(msg_if[0].body[0]) != want_exc or not mm:
+        raise TieBroken("generate_async: the shape of the assembled message changed: " + els[:100])
+    sep = ast.literal_eval(mm.group(1))
+    # the loops must not sit inside a try (the model has no handler): record it, the theorem is about the loop itself
+    guarded = any(isinstance(n, ast.Try) and loop_if in list(ast.walk(n)) for n in ast.walk(ga))
+    body = ["import NemoVerif.Models.LlmAssemble", "", "namespace NemoVerif.Generated.C17Assembly", "open NemoVerif.LlmAssemble", "",
+            f"-- {rel} :: LLMRails.generate_async, response assembly (ast fingerprint {fingerprint(loop_if)})",
+            "def spec : Spec :=",
+            f"  {{ utterType := {lean_str(utter)}.toList",
+            f"    removeScript := {lean_str(remove)}.toList",
+            f"    removeOp := RemoveOp.{op}",
+            f"    excSuffix := {lean_str(exc_suffix)}.toList",
+            f"    joinSep := {lean_str(sep)}.toList",
+            f"    finishedType := {lean_str(fin[0])}.toList",
+            f"    argExcluded := {lean_list([lean_str(x) + '.toList' for x in excluded])}",
+            f"    guarded := {'true' if guarded else 'false'} }}",
+            "", "end NemoVerif.Generated.C17Assembly"]
+    write_generated("C17Assembly", "\n".join(body) + "\n")
+    return {"assembly": {"utter_type": utter, "remove_script": remove, "remove_stmt": rm, "remove_op": op, "exception_suffix": exc_suffix, "join": sep,
+                         "v2_pattern": rx, "v2_finished": fin[0], "v2_excluded_args": excluded, "inside_try": guarded}}
+
+
 def run():
     info = dataflow()
     info.update(tables())
+    info["control_literals"] = control_literals()
+    try:
+        info.update(assembly())
+    except TieBroken as e:
+        # the generator still needs the literal scan: report the broken shape through static_tie (Generated/C17Assembly.lean keeps the
+        # last shape that was understood)
+        info["assembly_tie_broken"] = str(e)
     return info
